@@ -170,21 +170,20 @@ func nestedStuck(tr *sched.Tracer, pool interface{}, waiter uint64) bool {
 	if queued(tr, pool) < 1 {
 		return false
 	}
-	st := sched.GoStates()
+	d := sched.Dump() // states and stacks from one dump
 	idle := 0
 	for g := range v.LiveWorkers {
 		p := v.LastPoint[g]
-		if (p == "pool.idle.locked" || p == "pool.idle.beforewait") && st[g] == "sync.Cond.Wait" {
+		if (p == "pool.idle.locked" || p == "pool.idle.beforewait") && d[g].State == "sync.Cond.Wait" {
 			idle++
 			continue
 		}
-		if p == "pool.get.popped" && (st[g] == "semacquire" || st[g] == "sync.WaitGroup.Wait") &&
-			sched.GoStackHas(g, "sync.(*WaitGroup).Wait", "AddEventAndWait") {
+		if p == "pool.get.popped" && sched.BlockedIn(d, g, sched.WaitGroupStates, "sync.(*WaitGroup).Wait", "AddEventAndWait") {
 			continue
 		}
 		return false
 	}
-	if idle == 0 || waiter == 0 || !sched.GoStackHas(waiter, "sync.(*WaitGroup).Wait", "AddEventAndWait") {
+	if idle == 0 || waiter == 0 || !sched.BlockedIn(d, waiter, sched.WaitGroupStates, "sync.(*WaitGroup).Wait", "AddEventAndWait") {
 		return false
 	}
 	return tr.Now() == seq0
